@@ -360,6 +360,49 @@ func c17Case(run *evid.Run, i int) {
 			break
 		}
 	}
+	// a log that was started WITHOUT a link key and is continued WITH one after a restart: the keyed replica recovers from
+	// the last head hash (blocks with links in clear), appends (blocks with sealed links) and recovers again
+	if codec == "cbor" && i%4 == 1 {
+		for r, l := range x.Logs {
+			hd := l.Heads().Slice()
+			if len(hd) != 1 || l.Len() < 2 {
+				continue
+			}
+			kw := *x.W
+			kw.SetIO(hx.IO("link"))
+			at := fmt.Sprintf("r%d continued with a link key after a restart", r)
+			want := hx.Observe(l)
+			kl, err := kw.LoadHash(hd[0].GetHash(), x.Writer[r], &hx.LoadOpts{})
+			run.Count("logs_continued_with_a_link_key", 1)
+			if err != nil || kl == nil {
+				run.Violate("C17/reload-error", det("kind", "entry-hash", "codec", "cbor->link"), wit(at), "a keyed replica cannot recover a log written without the key: %v", err)
+				break
+			}
+			if got := hx.Observe(kl); !model.SameKeys(got.Set, want.Set) {
+				run.Violate("C17/reload-entries", det("kind", "entry-hash", "codec", "cbor->link"), wit(at), "a keyed replica recovered %d of the %d entries of a log written without the key", len(got.Set), len(want.Set))
+				break
+			}
+			var last iface.IPFSLogEntry
+			for q := 0; q < 2; q++ {
+				if last, err = kl.Append(x.W.Ctx, []byte(fmt.Sprintf("%d.%d/keyed-%d", h.Seed, h.Idx, q)), &iface.AppendOptions{PointerCount: 4}); err != nil {
+					break
+				}
+			}
+			if err != nil || last == nil {
+				break
+			}
+			state := hx.Observe(kl)
+			k2, err := kw.LoadHash(last.GetHash(), x.Writer[r], &hx.LoadOpts{})
+			if err != nil || k2 == nil {
+				run.Violate("C17/reload-error", det("kind", "entry-hash", "codec", "cbor->link"), wit(at), "reload after the keyed appends failed: %v", err)
+				break
+			}
+			if got := hx.Observe(k2); !model.SameKeys(got.Set, state.Set) {
+				run.Violate("C17/reload-entries", det("kind", "entry-hash", "codec", "cbor->link"), wit(at), "after two keyed appends the head hash loads %d entries, the replica held %d", len(got.Set), len(state.Set))
+			}
+			break
+		}
+	}
 	W := st.NBlocks()
 	run.Count("block_writes", W)
 	run.Count("publications", len(pubs))
